@@ -475,7 +475,15 @@ impl<SD, E: Exfiltrator> SignalIterator<SD, E> {
 
             match self.signals.borrow_mut().poll_pending(has_signals) {
                 Ok(Some(pending)) => self.iter = pending,
-                Ok(None) => return PollResult::Pending,
+                Ok(None) => {
+                    // The poll_pending returns None without consulting the callback if the
+                    // instance was closed since we have checked at the top of the loop. Returning
+                    // Pending then would leave the caller waiting without any wakeup armed.
+                    if self.signals.borrow_mut().handle.is_closed() {
+                        return PollResult::Closed;
+                    }
+                    return PollResult::Pending;
+                }
                 Err(err) => return PollResult::Err(err),
             }
         }
